@@ -24,7 +24,7 @@ func TestC02(t *testing.T) {
 
 var c03Cfg = SGenCfg{PingsPct: 25, RFs: allRF, MinOps: 5, MaxOps: 28, FaultPct: 35, SlowFaults: false, RestFail: true,
 	W: map[string]int{"write": 24, "sync": 6, "unmap": 4, "read": 4, "readd": 14, "add": 4, "promote": 8, "remove": 10,
-		"pingfail": 4, "nodedrop": 3, "snapshot": 8, "boot": 2, "reconnect": 3, "setmode": 4, "setmodeseq": 2, "ctlrevert": 4, "iorace": 6, "loneboot": 2}}
+		"pingfail": 4, "nodedrop": 3, "snapshot": 8, "boot": 2, "reconnect": 3, "setmode": 4, "setmodeseq": 2, "ctlrevert": 4, "iorace": 6, "loneboot": 2, "revertfail": 4}}
 
 func TestC03(t *testing.T) {
 	runStackProperty(t, "C03", "TestC03", func(rt *rapid.T) SProgram { return GenSProgram(rt, c03Cfg) },
